@@ -37,7 +37,8 @@ CHECKS.update({
         text="Theorem: with the iterative solver as an arbitrary oracle (no contract assumed), every stored level passed the code's own "
              "true-residual test for its step system or is the direct solution, a flagged or drifted iterate is never stored (any run length); "
              "the decision and the residual test are regenerated from the loop tails (C04_acceptance.v: kept iff info = 0 and test passed; accepted "
-             "residual at most 1e-9 of the right-hand side, no absolute term). The step system is the model's "
+             "residual at most 1e-9 of the right-hand side, no absolute term); the header of both time loops is regenerated too and the array-store loop "
+             "over the regenerated indices is proved to leave exactly the model's field in the array (C04_time_loop.v). The step system is the model's "
              "(proved equal to the translated _build_matrix); per-step residuals of the implementation's stored levels are computed "
              "by the float instance of that model inside Coq for every step of generated runs (nx to 400, p_f/p_i=0.9998); the "
              "tolerance and the info check are read behaviourally by intercepting bicgstab, with fault injection.",
@@ -170,7 +171,8 @@ CHECKS.update({
         text="Theorems on forecast.py as regenerated: forecast = M * rf(t/tau), linear in M, invariant under joint rescaling of t and tau; Bounds "
              "rejected iff lower >= upper (and for lengths != 2); fit_bounds shape; regularised guesses lie in the box, unchanged when inside, "
              "idempotent; for fixed tau the bounded least-squares optimum is the clipped ratio sum(r y)/sum(r r); the rescaled problem fit() hands to "
-             "the optimiser has the caller's minimisers (C05_fit_scaling.v). curve_fit's behaviour "
+             "the optimiser has the caller's minimisers and its starting point depends on this call's last observation only - (2, 5) in the optimiser's units "
+             "(C05_fit_scaling.v; the fit matcher refuses reads of earlier fitted state). curve_fit's behaviour "
              "(bounds honoured, round-trip recovery of M and tau) is validated numerically over many decades.",
         technique="Coq proof (field/lra on py2coq-translated model) + numerical round trips",
         design_ref="6/C05"),
